@@ -33,6 +33,7 @@ type Tree struct {
 	nb      int
 	Kinds   []string
 	MaxTx   int
+	MaxAcct int // accounts the generator may use
 }
 
 func NewTree(w *World) *Tree { return &Tree{W: w, builders: map[int]*Client{}, MaxTx: 6} }
@@ -91,6 +92,7 @@ func (t *Tree) Add(parent int, r *rand.Rand, mode string) (*TBlock, error) {
 	}
 	g := pg.Clone(rand.New(rand.NewSource(r.Int63())))
 	g.Kinds = t.Kinds
+	g.MaxAcct = t.MaxAcct
 	no := t.height(parent) + 1
 	// elder sibling
 	var sib *TBlock
@@ -114,6 +116,7 @@ func (t *Tree) Add(parent int, r *rand.Rand, mode string) (*TBlock, error) {
 		// continue the same nonces after the shared half
 		g2 := pg.Clone(rand.New(rand.NewSource(r.Int63())))
 		g2.Kinds = t.Kinds
+		g2.MaxAcct = t.MaxAcct
 		st := make([]string, len(half))
 		var inc [][]byte
 		for i, h := range half {
